@@ -1271,7 +1271,31 @@ impl OpGen<'_> {
                 let c = m.alive_local_funcs();
                 let id = *self.rng.pick_opt(&c)?;
                 let (a, b) = m.func_sig(id)?;
-                let tys = m.find_func_type(&a, &b);
+                let mut tys = m.find_func_type(&a, &b);
+                // a function of the input keeps a type equivalent to its declared one (same finality and
+                // supertype): typed references to it (`(ref null $t)` element segments) would otherwise
+                // stop validating because of what the caller asked for, not because of the library
+                {
+                    // (a function of the input: a local one, or an import that got a body through replace_import)
+                    struct Own {
+                        ty: u32,
+                    }
+                    if let Some(f) = m.base.func_type_of(id).map(|ty| Own { ty }) {
+                        let own = m.types.get(f.ty as usize).map(|t| t.ty.clone());
+                        // members of a larger rec group are distinct from every type outside the group
+                        let group_size = |t: u32| -> usize {
+                            let mut k = 0u32;
+                            for g in &m.base.types {
+                                if t < k + g.types.len() as u32 {
+                                    return g.types.len();
+                                }
+                                k += g.types.len() as u32;
+                            }
+                            1
+                        };
+                        tys.retain(|t| *t == f.ty || (m.types.get(*t as usize).map(|x| x.ty.clone()) == own && group_size(*t) == 1 && group_size(f.ty) == 1));
+                    }
+                }
                 let ty = *self.rng.pick_opt(&tys)?;
                 Some(Op::ConvertLocalToImport {
                     id,
